@@ -23,6 +23,25 @@ static ALLOC: allocprobe::Counting = allocprobe::Counting;
 
 pub const DEFAULT_SEED: u64 = 20261002;
 
+/// A logger that accepts every record and throws it away. Installing it makes the crate's
+/// `log::…!` macro arguments and `log_enabled!` branches execute (a configuration users have).
+struct Discard;
+impl log::Log for Discard {
+    fn enabled(&self, _: &log::Metadata) -> bool {
+        true
+    }
+    fn log(&self, record: &log::Record) {
+        std::hint::black_box(record.args());
+    }
+    fn flush(&self) {}
+}
+static DISCARD: Discard = Discard;
+
+fn logging_on() {
+    let _ = log::set_logger(&DISCARD);
+    log::set_max_level(log::LevelFilter::Trace);
+}
+
 struct Args {
     pos: Vec<String>,
     kv: Vec<(String, String)>,
@@ -116,6 +135,11 @@ fn main() {
     let args = Args::parse(&argv[1..]);
     sim::install_quiet_panic_hook();
     sim::set_depth(args.u64("depth").unwrap_or(0) as u8);
+    let odd_lane_logging = args.get("log-on-if-odd-lane").is_some() && args.u64("lane").unwrap_or(0) % 2 == 1;
+    if args.flag("log-on") || args.get("log-on").is_some() || odd_lane_logging {
+        logging_on();
+        sim::set_log_on(true);
+    }
     let code = match argv[0].as_str() {
         "run" => cmd_run(&args),
         "check" => cmd_check(&args),
@@ -290,6 +314,10 @@ fn cmd_replay(args: &Args) -> i32 {
         }
     };
     let machine = args.flag("machine");
+    if file.get("log_on").and_then(|x| x.as_bool()) == Some(true) {
+        logging_on();
+        sim::set_log_on(true);
+    }
     if file.get("mode").and_then(|x| x.as_str()) == Some("context") {
         let c = match file.get("context") {
             Some(c) => c,
@@ -332,6 +360,10 @@ fn spawn_run(bin: &Path, prop: &str, root: &Path, profile: &str, seed: u64, runs
     let _ = std::fs::remove_file(out);
     let mut cmd = sim::child_command(bin);
     cmd.arg("run").arg("--prop").arg(prop).arg("--root").arg(root).arg("--profile").arg(profile).arg("--seed").arg(seed.to_string()).arg("--runs").arg(runs.to_string()).arg("--workers").arg(workers.to_string()).arg("--depth").arg(sim::depth().to_string()).arg("--out").arg(out);
+    if profile == "simchk" {
+        // the second profile also runs with a logger installed at Trace level
+        cmd.arg("--log-on").arg("1");
+    }
     if let Some(d) = digests {
         cmd.arg("--dump-digests").arg(d);
     }
@@ -523,7 +555,7 @@ fn cmd_check(args: &Args) -> i32 {
     let mut steps_total = g(p, "seeded_steps") + g(p, "directed_steps");
     let mut inv = g(p, "invariant_evaluations");
     let mut profiles = vec![J::obj()
-        .with("profile", J::str("simfast: opt-level 3, overflow checks off, debug assertions off"))
+        .with("profile", J::str("simfast: opt-level 3, overflow checks off, debug assertions off, no logger installed"))
         .with("seeded_runs", J::u(g(p, "seeded_runs")))
         .with("directed_runs", J::u(g(p, "directed_runs")))
         .with("seeded_digest", p.get("seeded_digest").cloned().unwrap_or(J::Null))
@@ -535,7 +567,7 @@ fn cmd_check(args: &Args) -> i32 {
         inv += g(s, "invariant_evaluations");
         profiles.push(
             J::obj()
-                .with("profile", J::str("simchk: opt-level 2, overflow checks on, debug assertions on"))
+                .with("profile", J::str("simchk: opt-level 2, overflow checks on, debug assertions on, a discard-everything logger installed at Trace level"))
                 .with("seeded_runs", J::u(g(s, "seeded_runs")))
                 .with("directed_runs", J::u(g(s, "directed_runs")))
                 .with("seeded_digest", s.get("seeded_digest").cloned().unwrap_or(J::Null))
@@ -710,8 +742,13 @@ fn cmd_conc(args: &Args) -> i32 {
         if running.len() >= workers {
             let _ = running.remove(0).wait();
         }
-        let mut cmd = sim::child_command(&me);
-        cmd.arg("conc-lane").arg("--prop").arg(&prop).arg("--seed").arg(seed.to_string()).arg("--lane").arg(lane.to_string()).arg("--iterations").arg(iters.to_string()).arg("--max-secs").arg(args.u64("max-secs").unwrap_or(60).to_string()).arg("--dir").arg(work.join(format!("sched-{}", lane))).arg("--out").arg(work.join(format!("lane-{}.json", lane)));
+        let alt = args.get("alt-bin").map(PathBuf::from);
+        let bin = match &alt {
+            Some(a) if (lane / 2) % 2 == 1 && a.exists() => a.clone(),
+            _ => me.clone(),
+        };
+        let mut cmd = sim::child_command(&bin);
+        cmd.arg("conc-lane").arg("--log-on-if-odd-lane").arg("1").arg("--prop").arg(&prop).arg("--seed").arg(seed.to_string()).arg("--lane").arg(lane.to_string()).arg("--iterations").arg(iters.to_string()).arg("--max-secs").arg(args.u64("max-secs").unwrap_or(60).to_string()).arg("--dir").arg(work.join(format!("sched-{}", lane))).arg("--out").arg(work.join(format!("lane-{}.json", lane)));
         cmd.stdout(std::process::Stdio::null()).stderr(std::process::Stdio::null());
         if let Ok(c) = cmd.spawn() {
             running.push(c);
@@ -746,6 +783,11 @@ fn cmd_conc(args: &Args) -> i32 {
         let class = f.get("violation").and_then(|v| v.get("class")).and_then(|x| x.as_str()).unwrap_or("?").to_string();
         let sched = f.get("schedule_file").and_then(|x| x.as_str()).map(PathBuf::from);
         let lane = f.get("lane").and_then(|x| x.as_u64()).unwrap_or(0);
+        let lane_bin = match args.get("alt-bin").map(PathBuf::from) {
+            Some(a) if (lane / 2) % 2 == 1 && a.exists() => a,
+            _ => me.clone(),
+        };
+        let shadow_profile = if lane_bin == me { "release" } else { "concdbg" };
         let replays = root.join("replays");
         let _ = std::fs::create_dir_all(&replays);
         let mut reported = false;
@@ -753,7 +795,7 @@ fn cmd_conc(args: &Args) -> i32 {
             let keep = replays.join(format!("{}-conc-seed{}-lane{}.schedule", prop, seed, lane));
             let _ = std::fs::copy(&sf, &keep);
             // a fresh process must fail the same way from the schedule alone
-            let ok = sim::child_command(&me).arg("conc-replay").arg("--prop").arg(&prop).arg("--schedule").arg(&keep).arg("--machine").output().map(|o| o.status.code() == Some(1) && String::from_utf8_lossy(&o.stdout).contains(&format!("class={} ", class))).unwrap_or(false);
+            let ok = sim::child_command(&lane_bin).arg("conc-replay").arg("--log-on-if-odd-lane").arg("1").arg("--lane").arg(lane.to_string()).arg("--prop").arg(&prop).arg("--schedule").arg(&keep).arg("--machine").output().map(|o| o.status.code() == Some(1) && String::from_utf8_lossy(&o.stdout).contains(&format!("class={} ", class))).unwrap_or(false);
             if ok {
                 let file = replays.join(format!("{}-conc-seed{}-lane{}.json", prop, seed, lane));
                 let j = J::obj()
@@ -762,6 +804,8 @@ fn cmd_conc(args: &Args) -> i32 {
                     .with("property_id", J::str(&prop))
                     .with("verif_seed", J::u(seed))
                     .with("verif_seed_str", J::Str(seed.to_string()))
+                    .with("lane", J::u(lane))
+                    .with("shadow_profile", J::str(shadow_profile))
                     .with("schedule_file", J::Str(keep.display().to_string()))
                     .with("scheduler", f.get("scheduler").cloned().unwrap_or(J::Null))
                     .with("what", J::str("two or three simulated caller threads, each running its own short history against the shadow build of the crate in which core::sync::atomic is shuttle::sync::atomic; the schedule file is shuttle's own replayable encoding of which thread ran at every atomic operation"))
@@ -779,7 +823,7 @@ fn cmd_conc(args: &Args) -> i32 {
         if !reported {
             // the schedule alone is not enough (state carried over from earlier iterations): the whole lane is the replay
             let again = work.join("again.json");
-            let ok = sim::child_command(&me).arg("conc-lane").arg("--prop").arg(&prop).arg("--seed").arg(seed.to_string()).arg("--lane").arg(lane.to_string()).arg("--iterations").arg(iters.to_string()).arg("--max-secs").arg("100000").arg("--dir").arg(work.join("again-sched")).arg("--out").arg(&again).status().is_ok()
+            let ok = sim::child_command(&lane_bin).arg("conc-lane").arg("--log-on-if-odd-lane").arg("1").arg("--prop").arg(&prop).arg("--seed").arg(seed.to_string()).arg("--lane").arg(lane.to_string()).arg("--iterations").arg(iters.to_string()).arg("--max-secs").arg("100000").arg("--dir").arg(work.join("again-sched")).arg("--out").arg(&again).status().is_ok()
                 && read_json(&again).ok().map(|j| j.get("failed").and_then(|x| x.as_bool()) == Some(true) && j.get("violation").and_then(|v| v.get("class")).and_then(|x| x.as_str()) == Some(class.as_str())).unwrap_or(false);
             if ok {
                 let file = replays.join(format!("{}-conc-seed{}-lane{}.json", prop, seed, lane));
@@ -790,6 +834,7 @@ fn cmd_conc(args: &Args) -> i32 {
                     .with("verif_seed", J::u(seed))
                     .with("verif_seed_str", J::Str(seed.to_string()))
                     .with("lane", J::u(lane))
+                    .with("shadow_profile", J::str(shadow_profile))
                     .with("iterations", J::u(iters))
                     .with("what", J::str("the failing iteration depends on state left by earlier iterations of its lane; the replay re-runs the lane's schedules from its seed in a fresh process"))
                     .with("expected", J::obj().with("class", J::str(&class)))
@@ -816,6 +861,7 @@ fn cmd_conc(args: &Args) -> i32 {
         .with("schedules_explored_note", J::str("completed iterations of lanes that ran to their end; an iteration that reaches the step limit (a caller spinning on a flag) is abandoned by shuttle and still counted"))
         .with("lanes_ended_early_without_a_verdict", J::u(lanes_without_verdict))
         .with("schedulers", J::str("random (3 lanes of 4), PCT depth 3 (1 lane of 4)"))
+        .with("lane_configurations", J::str("lane mod 4: 0 release shadow, no logger; 1 release, logger at Trace; 2 shadow with debug assertions and overflow checks, no logger; 3 the same with logger"))
         .with("callers_per_schedule", J::str("2 or 3 simulated threads, each with its own objects, model and invariants"))
         .with("violations", J::u(violations))
         .with("violation", vdetail)
